@@ -207,6 +207,8 @@ class BptkServer(Flask):
         if external_state_adapter != None:
             result = self._external_state_adapter.load_state()
             for instance_data in result:
+                if instance_data is None: # a state that could not be read costs that one instance, nothing else
+                    continue
                 self._instance_manager.reconstruct_instance(instance_data.instance_id, instance_data.timeout, instance_data.time, instance_data.state)
 
         # specifying the routes and methods of the api
@@ -290,6 +292,8 @@ class BptkServer(Flask):
         result = self._external_state_adapter.load_state()
 
         for instance_data in result:
+            if instance_data is None:
+                continue
             self._instance_manager.reconstruct_instance(instance_data.instance_id, instance_data.timeout, instance_data.time, instance_data.state)
 
         resp = make_response("Success", 200)
